@@ -952,6 +952,22 @@ def c17(tier, replay):
         shard.append(k % nprobe)
         nlong += 1
     run.cov["very_long_unknown_lines"] = nlong
+    # LONG RUNS of lines the engine does not understand (unknown words, blank lines, whitespace) with no known command in
+    # between, around the powers of two: a counter of "consecutive protocol errors" that gives up, or a small counter that wraps,
+    # shows only there.  Behind the run: isready, the probe (reply of the clean session), isready, quit
+    nruns = 0
+    for k, n in enumerate((31, 32, 33, 64, 100, 255, 256, 257, 1000) if q else (7, 8, 15, 16, 17, 31, 32, 33, 63, 64, 65, 100, 127, 128, 129, 255, 256, 257, 511, 512, 1000, 1024, 1025, 4096)):
+        clean_s = sessions[3 * (k % nprobe)]
+        cmd, goline = clean_s[0]["line"], clean_s[3]["line"]
+        kind = k % 3
+        noise = [(rng.choice(GARBAGE) if kind == 0 else rng.choice(["", " ", "\t", "   "]) if kind == 1 else rng.choice(GARBAGE + ["", "  "])) for _ in range(n)]
+        # (an `isready` inside the garbage alphabet would be a known command: the run must not contain one)
+        noise = [x if x.split()[:1] not in (["isready"], ["quit"], ["position"], ["go"], ["uci"], ["ucinewgame"], ["setoption"]) else "xyzzy" for x in noise]
+        sessions.append([{"do": "send", "line": cmd}, {"do": "isready"}] + [{"do": "send", "line": x} for x in noise] +
+                        [{"do": "isready"}, {"do": "go", "line": goline, "extra": {"probe": "g%d" % (k % nprobe)}}, {"do": "isready"}, {"do": "quit"}])
+        shard.append(k % nprobe)
+        nruns += 1
+    run.cov["long_runs_of_unknown_lines"] = nruns
     # unknown tokens inside go
     for g in GO_ODD:
         sessions.append([{"do": "send", "line": rng.choice(live)}, {"do": "go", "line": g}, {"do": "isready"}, {"do": "quit"}])
